@@ -4,3 +4,4 @@ import Generated.Builtins
 import Generated.SoapFlow
 import Generated.Constants
 import Generated.MemoSites
+import Generated.SchemaAttrs
